@@ -131,8 +131,8 @@ def build(c):
     if not c["echo_ok"]:
         # the ways an echo can be wrong, spread over the grid
         k = (c["retries"] + sum(c["ui_version"]) + sum(c["signer_version"]) +
-             PLATFORMS.index(c["platform"]) + POST.index(c["post_mode"])) % 4
-        w.echo_ok = [False, "hdr-cmd", "hdr-cla", "short"][k]
+             PLATFORMS.index(c["platform"]) + POST.index(c["post_mode"])) % 5
+        w.echo_ok = [False, "hdr-cmd", "hdr-cla", "short", "long"][k]
     w.unlock_ok = c["unlock_ok"]
     w.post_mode = c["post_mode"]
     w.pin = PIN
@@ -215,7 +215,8 @@ def run_case(c):
         raise Violation("served-without-unlock", repr(desc))
     boundary = c["ui_version"] in BOUNDARY_V[1:] or c["signer_version"] in BOUNDARY_V[1:]
     labels = ["out:" + out, "platform:" + c["platform"], "mode:%s" % c["mode"],
-              "echo:%s" % w.echo_ok, "exit-drop:" + w.exit_drop,
+              "echo:%s" % w.echo_ok, "echo:%s:%s" % (w.echo_ok, c["platform"]),
+              "exit-drop:" + w.exit_drop,
               "unlocks:%d" % unlocks, "change:%s" % c.get("change", c["needs_change"])]
     if serves:
         labels.append("serves")
@@ -467,7 +468,7 @@ REQUIRED_LABELS = {t: ["change:%s" % x for x in CHANGES] + ["out:serve", "out:er
                        "server:answered", "server:silent", "server:restarted", "program:Ledger", "program:SGX",
                        "program:TCP", "program-serves", "program-stops", "program:forced-change", "fault-at-unlock", "fault-out:stop",
                        "fault-platform:SGX", "fault-platform:Ledger", "echo:hdr-cmd",
-                       "echo:hdr-cla", "echo:short", "echo:False", "echo:True", "exit-drop:read",
+                       "echo:hdr-cla", "echo:short", "echo:long:SGX", "echo:long:Ledger", "echo:long:TCP", "echo:False", "echo:True", "exit-drop:read",
                        "exit-drop:write", "exit-drop:timeout"] for t in ("quick", "thorough")}
 
 
